@@ -423,6 +423,12 @@ class Machine:
                 raise Unsupported("deposit outside the word")
             m = mask(length) << start
             return (w, (x & ~m & mask(w)) | ((fv << start) & m))
+        if f == "U32" or f == "U64":
+            # plugin helper: a C integer turned into a bitvector; the only use in emitted code is the packet address (PC)
+            w = 32 if f == "U32" else 64
+            if a[0][0] == "var" and a[0][1] == "pkt->pkt_addr":
+                return (w, self.state.reg("pc_op") & mask(w))
+            return (w, self.cnum(a[0]) & mask(w))
         if f == "HEX_REGFIELD":
             # plugin table lookup; the concrete numbers are a table shared with the reference (sim/il.REGFIELDS)
             prop, field = a[0], a[1]
